@@ -317,7 +317,7 @@ def t_library(depth, part, nparts):
 			level += 1
 		sh.states = len(seen)
 		sh.extra = dict(lib_depth=depth, frontier_left=len(frontier))
-	sh.sample(dict(family='library', depth=depth, example_history=list(max(seen.values(), key=len))))
+	sh.sample(dict(family='library', depth=depth, example_history=list(max(seen.values(), key=len)) if seen else None))
 	return sh
 
 
